@@ -64,6 +64,11 @@ impl<T: Show> Show for Vec<T> {
         format!("[{}]", self.iter().map(|x| x.show()).collect::<Vec<_>>().join(","))
     }
 }
+impl<T: Show> Show for std::collections::BTreeSet<T> {
+    fn show(&self) -> String {
+        format!("{{{}}}", self.iter().map(|x| x.show()).collect::<Vec<_>>().join(","))
+    }
+}
 macro_rules! tuple_show {
     ($($n:ident),+) => {
         impl<$($n: Show),+> Show for ($($n,)+) {
